@@ -198,10 +198,9 @@ type compiled struct {
 }
 
 var (
-	cacheMu sync.Mutex
-	cache   = map[string]*compiled{}
-	// big systems (uints) are kept separately so that at most a few are alive
-	cacheOrder []string
+	cacheMu    sync.Mutex
+	cache      = map[string]*compiled{}
+	cacheOrder []string // insertion order of the small systems (heavy ones: heavyOrder)
 )
 
 const cacheMax = 4000
